@@ -67,6 +67,12 @@ func (c *c05Case) scenario() *Scenario {
 			rt = Script{Steps: []Step{{Op: "rt.next"}, {Op: "stall"}}}
 		case "rt.next":
 			rt = Script{Steps: []Step{{Op: "rt.next"}, {Op: "rt.response", ID: "cur", BodyMode: "transform"}, {Op: "stall"}}}
+		case "rt.upload":
+			// the runtime has started to post its response and stalls in the middle of the body
+			rt = Script{Steps: []Step{{Op: "rt.next"}, {Op: "rt.response", ID: "cur", BodyMode: "transform", SlowBody: "never"}, {Op: "stall"}}}
+		case "e1.upload":
+			// the extension stalls in the middle of the body of an init error report
+			exts[0].Steps = []Step{{Op: "ext.register", Events: c.extEvents(0)}, {Op: "ext.initerror", ErrType: "Extension.Half", BodyMode: "lit", Lit: `{"errorMessage":"half a report"}`, SlowBody: "never"}, {Op: "stall"}}
 		}
 	case "race":
 		rt = Script{Steps: []Step{{Op: "rt.next"}, {Op: "sleep", Ms: c.T + c.Delta}, {Op: "rt.response", ID: "cur", BodyMode: "transform"}, {Op: "rt.loop"}}}
@@ -236,7 +242,7 @@ func c05Check(c c05Case) (out kit.Outcome) {
 	return out
 }
 
-var c05Phases = []string{"e1.register", "e1.next", "e1.event", "rt.firstnext", "rt.response", "rt.next"}
+var c05Phases = []string{"e1.register", "e1.next", "e1.event", "rt.firstnext", "rt.response", "rt.next", "rt.upload", "e1.upload"}
 
 func c05Gen(t *rapid.T) c05Case {
 	c := c05Case{Family: rapid.SampledFrom([]string{"stall", "stall", "race", "hook"}).Draw(t, "family"), T: rapid.SampledFrom([]int{150, 300}).Draw(t, "T"),
